@@ -757,7 +757,13 @@ class UsersDictionary(utils.IterableMap):
         """Returns the user ID of a given name or hostmask."""
         if ircutils.isUserHostmask(s):
             try:
-                return self._hostmaskCache[s]
+                id = self._hostmaskCache[s]
+                if self.users[id].checkHostmask(s):
+                    return id
+                # The cached answer is stale: the identification it came
+                # from timed out, or the hostmask was removed from the user.
+                self.invalidateCache(hostmask=s)
+                raise KeyError(s)
             except KeyError:
                 ids = {}
                 for (id, user) in self.users.items():
